@@ -18,7 +18,8 @@ def run(v):
     quick = v.tier == "quick"
     d = outdir("C13")
     L, C = (4, 2) if quick else (6, 2)
-    cfg = "SPECIFICATION Spec\nCONSTANTS\n  Dev = %s\n  L = %d\n  C = %d\nINVARIANTS %s\nCHECK_DEADLOCK FALSE\n"
+    K = 3 if quick else 4
+    cfg = "SPECIFICATION Spec\nCONSTANTS\n  Dev = %s\n  L = %d\n  C = %d\n  K = " + str(K) + "\nINVARIANTS %s\nCHECK_DEADLOCK FALSE\n"
     # ---- M + emission: machine-shaped TokImpl == functional LexSpec, relayout invariance, for all strings ----
     vec = os.path.join(d, "lexer.ndjson")
     t = run_tlc("C13", "MC_Lexer", cfg % ("{}", L, C, "Agree Relayout Emit"), replay_to=vec, coverage=False, heap="12g", timeout=3 * 3600)
@@ -82,7 +83,8 @@ def run(v):
     v.cov["states"] += tp.generated
     v.cov["distinct_nontrivial"] = summ["nontrivial"]
     v.cov["exhaustive"] = True
-    v.cov["rule"] = ("M+R: one TLC state per string: ALL strings of length <= %d over the 11-symbol lexical alphabet {x y SP TAB CR LF - / * : {} plus "
+    v.cov["rule"] = ("M+R: one TLC state per string: a block comment with EVERY interior of length <= " + str(K) + " over {LF - x SP / *} between all "
+                     "single-character contexts (multi-line comments, '--' and nested brackets on comment lines); ALL strings of length <= %d over the 11-symbol lexical alphabet {x y SP TAB CR LF - / * : {} plus "
                      "every separator form (blank, tab, CR LF, LF, line comment, block comment, nested block comment, comment with a line "
                      "break, empty comment) between all pairs of contexts of length <= %d. In every state TLC checks TokImpl (shaped like "
                      "Tokenizer::parse) = LexSpec (functional X.680 clause 12 definition) incl. line/column, and relayout invariance; the "
